@@ -753,7 +753,7 @@ func c12Run(c *core.Ctx) {
 			} else if sig != "" {
 				c.Violation(sig, detail, cs, func() string { s, _ := c12E2(it.Schema, it.Name, in); return s })
 			}
-			if idx%256 == 0 && c.TimeUp() {
+			if c.TimeUpEvery(16) {
 				return
 			}
 		}
